@@ -80,6 +80,7 @@ class Report:
         self.distinct_count_extra = 0
         self.samples = []
         self.violations = []      # (key, detail)
+        self.beyond_notes = []
         self.extra = {}
         self.assumptions = []
         self.rule = ""
@@ -106,6 +107,11 @@ class Report:
     def violation(self, key: str, detail):
         self.violations.append((key, detail))
 
+    def beyond(self, key: str, detail):
+        """The code departs from the specification on behaviour the property's statement does not fix (the specification
+        covers more than the listed properties): recorded in the evidence and printed as a NOTE, never an alarm."""
+        self.beyond_notes.append((key, detail))
+
     # ---- finish: evidence + verdict lines + exit code
     def finish(self) -> int:
         finds, _ = load_findings()
@@ -124,6 +130,10 @@ class Report:
         if self.exhaustive is not None:
             cov["exhaustive"] = self.exhaustive
         cov.update(self.extra)
+        cov["beyond_statement_deviations"] = [{"key": k, "detail": _short(d, 600)} for k, d in self.beyond_notes[:20]]
+        for k in sorted({k for k, _ in self.beyond_notes}):
+            print(f"NOTE: property={self.pid} beyond-statement deviation {k} ({sum(1 for x, _ in self.beyond_notes if x == k)} case(s)): "
+                  f"the code departs from the specification where the property's statement fixes nothing; not an alarm")
         ev = {"property_id": self.pid, "tier": self.tier, "seed": seed(), "level": self.level,
               "coverage": cov, "assumptions": self.assumptions,
               "wall_s": round(time.time() - self.t0, 2), "violations": len(new)}
